@@ -247,6 +247,7 @@ inductive HOp2
   | newFrom (o j : Nat) (isComment : Bool)        -- `objs[o] = TextBlock(objs[j])` / `Comment(objs[j])`
   | appendLinesOf (o j : Nat)                     -- `objs[o].append(objs[j].lines)`
   | newWithHeader (o j k : Nat)                   -- `objs[o] = TextBlock(objs[j], header=objs[k])`
+  | clone (o j : Nat)                             -- `objs[o] = copy.deepcopy(objs[j])`: an equal, independent block
   deriving Repr, Inhabited
 
 def objAt (objs : List TObj) (i : Nat) : TObj := objs.getD i {}
@@ -267,6 +268,7 @@ def step2 (objs : List TObj) : HOp2 → List TObj × Option (List Str)
     let x := objAt objs o
     (objs.set o { x with tb := x.tb.append (.list ((objAt objs j).tb.lines.map .str)) }, none)
   | .newWithHeader o j k => (objs.set o (TObj.new false (objAt objs j).asBlock (objAt objs k).asBlock), none)
+  | .clone o j => (objs.set o (objAt objs j), none)
 
 /-- after every step: lines and string form of EVERY object, and the extra result -/
 def run2 (objs : List TObj) : List HOp2 → List (List (List Str × Str) × Option (List Str))
